@@ -277,6 +277,7 @@ def crowd_conflict(draw):
     case["chops"] = list(draw(st.permutations(chops)))
     case["conflict"] = {"family": -1, "first": [vocal[0], d], "second": [centre, d], "shape": shape, "where": where,
                         "vocal": len(vocal), "crowd": len(present)}
+    lt.decorate(draw, case)
     return case
 
 
@@ -320,6 +321,7 @@ def camps_conflict(draw):
     second = [c for c in cells if lt.cell_ijk(dims, c)[row_axis] == cut][0]
     case["conflict"] = {"family": -1, "first": [first, d], "second": [second, d], "shape": "camps", "where": f"cut-{min(cut, k - cut)}",
                         "vocal": ncell, "crowd": ncell}
+    lt.decorate(draw, case)
     return case
 
 
